@@ -225,6 +225,22 @@ func (e *Env) evalIdent(name string) SVal {
 			}
 		}
 		e.fail("_visited outside a map range loop")
+	case "_range":
+		// the slice a "for ... range s" loop iterates over
+		if e.loop == nil {
+			e.fail("_range outside a loop")
+		}
+		for _, in := range e.loop.header.Instrs {
+			if b, ok := in.(*ssa.BinOp); ok {
+				if c, ok := b.Y.(*ssa.Call); ok {
+					if bi, ok := c.Call.Value.(*ssa.Builtin); ok && bi.Name() == "len" {
+						a := c.Call.Args[0]
+						return e.mk(vc.val(a), a.Type(), nil)
+					}
+				}
+			}
+		}
+		e.fail("_range: loop %d is not a range loop over a slice", e.loop.ordinal)
 	case "_loopalloc":
 		if e.loop == nil {
 			e.fail("_loopalloc outside a loop")
@@ -911,6 +927,18 @@ func (e *Env) findSliceOffset(name string, body Expr) (off string) {
 		if base != nil && !isPlain {
 			return // keep the first candidate unless a plain s[i] is found
 		}
+		if !isPlain {
+			// only i+c / c+i / i-c qualify (unit coefficient); anything else keeps the relative index
+			b, ok := ix.I.(*EBinary)
+			if !ok || (b.Op != "+" && b.Op != "-") {
+				return
+			}
+			lid, lok := b.X.(*EIdent)
+			rid, rok := b.Y.(*EIdent)
+			if !((lok && lid.Name == name) || (rok && rid.Name == name && b.Op == "+")) {
+				return
+			}
+		}
 		mentions := false
 		walkExpr(ix.I, func(y Expr) {
 			if id, ok := y.(*EIdent); ok && id.Name == name {
@@ -1017,6 +1045,9 @@ func (e *Env) evalCall(n *ECall) SVal {
 	case "arrof":
 		v := e.eval(n.Args[0])
 		return mathInt("(s-arr " + v.t + ")")
+	case "offof":
+		v := e.eval(n.Args[0])
+		return mathInt("(s-off " + v.t + ")")
 	case "atentry":
 		// value of an expression when the enclosing loop was entered
 		if e.loop == nil || e.loop.entryState == nil {
